@@ -504,6 +504,10 @@ func genCase(t *rapid.T) Case {
 		}
 	}
 	c.W, c.H = size("w"), size("h")
+	if rapid.IntRange(0, 5).Draw(t, "native") == 0 {
+		// the graphic at its native size: one viewBox unit per pixel on both axes
+		c.W, c.H = int(c.ViewBox[2]-c.ViewBox[0]), int(c.ViewBox[3]-c.ViewBox[1])
+	}
 	for i := range c.Paths {
 		if rapid.IntRange(0, 3).Draw(t, "lod") != 0 {
 			continue
@@ -550,6 +554,9 @@ func TestPixelRelations(t *testing.T) {
 			labels = append(labels, "image.Alpha")
 		} else {
 			labels = append(labels, "image.RGBA")
+		}
+		if c.W == int(c.ViewBox[2]-c.ViewBox[0]) && c.H == int(c.ViewBox[3]-c.ViewBox[1]) {
+			labels = append(labels, "target-of-the-viewbox's-own-size(scale-1)")
 		}
 		if c.W > 512 || c.H > 512 {
 			labels = append(labels, "beyond-512px")
